@@ -16,9 +16,11 @@ VARIABLES scen,
           cov,       \* [x -> SUBSET Nat] payload offsets that have arrived at the receiver
           queued,    \* Seq([len, dig]) what the receiver announced / handed to its user
           done,      \* transfers the sender reported finished
-          hung       \* the sender did not return from a callback (watchdog)
+          hung,      \* the sender did not return from a callback (watchdog)
+          announced, \* receive-side ids announced by recv_bundle_finished
+          popped     \* receive-side ids whose data the user has taken
 
-xvars == <<tid, l, kfUsed, scen, req, pieces, cov, queued, done, hung>>
+xvars == <<tid, l, kfUsed, scen, req, pieces, cov, queued, done, hung, announced, popped>>
 Ext(f, k, v) == [y \in DOMAIN f \cup {k} |-> IF y = k THEN v ELSE f[y]]
 Whole(t) == 0..(t - 1)
 Tag == {scen.prop}
@@ -56,6 +58,10 @@ Clauses(ev) ==
           C(Tag, "NothingQueuedWhileOctetsMissing",
               \E x \in DOMAIN req : req[x].dig = ev.dig /\ x \in DOMAIN cov /\ cov[x] = Whole(req[x].total))
         }
+    [] ev.a = "RxQueue" ->
+        { C({"C18"}, "ReceiveQueueListsAnnouncedNotYetPopped", {ev.ids[i] : i \in DOMAIN ev.ids} = announced \ popped) }
+    [] ev.a = "PopAgain" ->
+        { C({"C18"}, "PoppingReturnsTheDataExactlyOnce", ~ev.gave_data) }
     [] ev.a = "Sig" ->
         { C({"C18"}, "SignalConformsToDeclaredSignature", ArgsConform(ev.sigt, ev.tags)) }
     [] ev.a = "Final" ->
@@ -91,12 +97,15 @@ Upd(ev) ==
   /\ queued' = IF ev.a = "Queued" THEN Append(queued, [len |-> ev.len, dig |-> ev.dig]) ELSE queued
   /\ done' = IF ev.a = "SendDone" THEN done \cup {ev.x} ELSE done
   /\ hung' = (hung \/ ev.a = "Hang")
+  /\ announced' = IF ev.a = "Announced" THEN announced \cup {ev.bid} ELSE announced
+  /\ popped' = IF ev.a = "Popped" THEN popped \cup {ev.bid} ELSE popped
 
 Traces == JsonDeserialize(IOEnv.TRACE_FILE)
 TraceInit ==
   /\ tid \in 1..Len(Traces) /\ l = 1 /\ kfUsed = {}
   /\ scen = [prop |-> "C13", mtu |-> -1, once |-> FALSE, minenv |-> 0]
   /\ req = <<>> /\ pieces = <<>> /\ cov = <<>> /\ queued = <<>> /\ done = {} /\ hung = FALSE
+  /\ announced = {} /\ popped = {}
   /\ TLCSet(tid, 1)
 TraceNext ==
   /\ l <= Len(Traces[tid])
